@@ -13,6 +13,39 @@ sys.path.insert(0, os.path.dirname(os.path.dirname(os.path.abspath(__file__))))
 from sim import core          # noqa: E402
 
 
+_REAL = {}
+_LOW = [None]
+
+
+def low_seam_available():
+    """True when the C preprocessor can be run through the project's CCompiler (then only the C
+    extension class is replaced); otherwise the whole of create_source_scanner is (as in the first
+    version of this engine).  VERIF_E2_SEAM=high forces the latter."""
+    if _LOW[0] is None:
+        ok = False
+        if os.environ.get('VERIF_E2_SEAM', 'low') != 'high':
+            import shutil
+            import tempfile
+            d = tempfile.mkdtemp(prefix='verif-cpp-')
+            cwd = os.getcwd()
+            try:
+                os.chdir(d)
+                from giscanner.ccompiler import CCompiler
+                with open('t.c', 'w') as f:
+                    f.write('#include "%s/h.h"\n' % d)
+                with open('h.h', 'w') as f:
+                    f.write('/* x */\n')
+                CCompiler().preprocess('t.c', 't.i', [])
+                ok = ('"%s/h.h"' % d) in open('t.i').read()
+            except BaseException:
+                ok = False
+            finally:
+                os.chdir(cwd)
+                shutil.rmtree(d, ignore_errors=True)
+        _LOW[0] = ok
+    return _LOW[0]
+
+
 def run_scanner(job, variant, out_path, log_path, inproc=False):
     """Runs the real scanner_main once.  Fork mode: executed in a pristine forked child, never
     returns.  In-process mode: executed in the server itself (no fork, so no copy-on-write page
@@ -50,6 +83,7 @@ def run_scanner(job, variant, out_path, log_path, inproc=False):
     import tempfile
     tempfile.tempdir = None
     from giscanner import scannermain
+    _REAL.setdefault('create_source_scanner', scannermain.create_source_scanner)
     sys.argv = [variant.get('argv0') or os.path.join(jobdir, 'bin', 'g-ir-scanner')]
 
     files = variant.get('file_order') or job['file_order']
@@ -65,6 +99,7 @@ def run_scanner(job, variant, out_path, log_path, inproc=False):
             dd['file'] = os.path.realpath(os.path.join(jobdir, f))
             decls.append(dd)
     comments = variant.get('comments')
+    explicit = comments is not None
     if comments is None:
         # lexing order: .c files first (command-line order), then the headers
         cfiles = [f for f in files if f.endswith('.c')]
@@ -72,15 +107,25 @@ def run_scanner(job, variant, out_path, log_path, inproc=False):
         comments = [c for f in cfiles + hfiles for c in job['comments'] if c[1] == f]
     comments = [[c[0], os.path.realpath(os.path.join(jobdir, c[1])), c[2]] for c in comments]
 
-    def stub_create_source_scanner(options, args):
-        # keep the real function's argument handling (file existence checks, realpath)
-        if hasattr(options, 'filelist') and options.filelist:
-            filenames = scannermain.extract_filelist(options)
-        else:
-            filenames = scannermain.extract_filenames(args)
-        filenames = [os.path.realpath(f) for f in filenames]
-        return cfront.StubSourceScanner(decls, comments, filenames), filenames
-    scannermain.create_source_scanner = stub_create_source_scanner
+    if low_seam_available():
+        # the seam is the C extension class: scannermain.create_source_scanner and the Python
+        # SourceScanner (with its preprocessor run) are the project's own code
+        from giscanner import sourcescanner
+        fake = type('FakeCSourceScanner', (cfront.FakeCSourceScanner,), {
+            'decls': decls, 'comments': [c for c in comments],
+            'comments_override': comments if explicit else None})
+        sourcescanner.CSourceScanner = fake
+        scannermain.create_source_scanner = _REAL['create_source_scanner']
+    else:
+        def stub_create_source_scanner(options, args):
+            # keep the real function's argument handling (file existence checks, realpath)
+            if hasattr(options, 'filelist') and options.filelist:
+                filenames = scannermain.extract_filelist(options)
+            else:
+                filenames = scannermain.extract_filenames(args)
+            filenames = [os.path.realpath(f) for f in filenames]
+            return cfront.StubSourceScanner(decls, comments, filenames), filenames
+        scannermain.create_source_scanner = stub_create_source_scanner
 
     args = ['g-ir-scanner', '--output=' + out_path, '--namespace=' + job['ns'], '--nsversion=' + job['version']]
     for p in job.get('id_prefixes', []):
@@ -124,7 +169,9 @@ def serve():
     # import everything the scanner needs once, so children start warm
     from giscanner import scannermain  # noqa: F401
     from sim import cfront  # noqa: F401
-    sys.stdout.write(json.dumps({'ready': True, 'hashseed': os.environ.get('PYTHONHASHSEED'),
+    _REAL.setdefault('create_source_scanner', scannermain.create_source_scanner)
+    low = low_seam_available()       # decided once per server; forked children inherit it
+    sys.stdout.write(json.dumps({'ready': True, 'low_seam': low, 'hashseed': os.environ.get('PYTHONHASHSEED'),
                                  'pid': os.getpid()}) + '\n')
     sys.stdout.flush()
     real_stdout = os.dup(1)
